@@ -4,6 +4,7 @@ import (
 	"bytes"
 	"errors"
 	"fmt"
+	"runtime/debug"
 	"testing"
 	"unsafe"
 
@@ -29,6 +30,8 @@ type WriterCase struct {
 	NilInit bool  `json:"nil_init,omitempty"`
 	FailAt  int   `json:"fail_at,omitempty"` // sink fails at the k-th Write (0 = never)
 	Short   int   `json:"short,omitempty"`
+	SinkErr int   `json:"sink_err,omitempty"` // error value of the failing sink (faultio.SinkErr)
+	Decoy   bool  `json:"decoy,omitempty"`    // the sink also has WriteBinary/Flush/Malloc/ReadFrom... methods (only Write counts)
 	Ops     []WOp `json:"ops"`
 	Pow2    bool  `json:"pow2,omitempty"`   // C09: WriteBinary payloads live in power-of-two capacity caller buffers
 	Tenant  int   `json:"tenant,omitempty"` // C09 only
@@ -63,7 +66,7 @@ func overlaps(a, b []byte) bool {
 }
 
 func runWriterHistory(c *WriterCase, cv *cov, hooks *writerHooks) (v *evid.Violation) {
-	sink := &faultio.ScriptWriter{FailAt: c.FailAt, Short: c.Short}
+	sink := &faultio.ScriptWriter{FailAt: c.FailAt, Short: c.Short, ErrKind: c.SinkErr}
 	var w bufiox.Writer
 	var target, initial []byte
 	if c.Bytes {
@@ -83,7 +86,11 @@ func runWriterHistory(c *WriterCase, cv *cov, hooks *writerHooks) (v *evid.Viola
 		}
 		w = bufiox.NewBytesWriter(&target)
 	} else {
-		w = bufiox.NewDefaultWriter(sink)
+		if c.Decoy {
+			w = bufiox.NewDefaultWriter(&faultio.DecoySink{ScriptWriter: sink})
+		} else {
+			w = bufiox.NewDefaultWriter(sink)
+		}
 	}
 	var pending []wregion
 	var owned [][]byte    // caller-owned WriteBinary payload buffers (full capacity) and pristine copies
@@ -233,18 +240,18 @@ func runWriterHistory(c *WriterCase, cv *cov, hooks *writerHooks) (v *evid.Viola
 						v = evid.Failf("step %d Flush after a sink failure returned err=%v, want the sink error", step, err)
 						return
 					}
-					if len(sink.Writes) != before {
-						v = evid.Failf("step %d Flush after a sink failure wrote to the sink again", step)
+					if len(sink.Writes) != before || sink.After > 0 {
+						v = evid.Failf("step %d Flush after a sink failure (%v) wrote to the sink again", step, failed)
 						return
 					}
 					continue
 				}
 				if !c.Bytes && sink.Failed && !wasFailed {
-					if err == nil || !errors.Is(err, faultio.ErrSink) {
-						v = evid.Failf("step %d Flush: the sink failed but Flush returned err=%v", step, err)
+					if err == nil || !errors.Is(err, sink.Err()) {
+						v = evid.Failf("step %d Flush: the sink failed with %v but Flush returned err=%v", step, sink.Err(), err)
 						return
 					}
-					failed = faultio.ErrSink
+					failed = sink.Err()
 					continue
 				}
 				if err != nil {
@@ -352,7 +359,7 @@ func checkWriterCase(c WriterCase, cv *cov) *evid.Violation { return runWriterHi
 
 func init() { register("c05_writer_history", checkWriterCase) }
 
-var writerSizes = []int{0, 1, 3, 100, 4095, 4096, 4097, 8192, 12289, 40000}
+var writerSizes = []int{0, 1, 3, 100, 4095, 4096, 4097, 8192, 12289, 40000, 16384, 65536, 131072}
 
 func genWriterOps(t *rapid.T, maxOps int) []WOp {
 	sizes := rapid.OneOf(rapid.SampledFrom(writerSizes), rapid.SampledFrom(writerSizes), rapid.IntRange(0, 20000), rapid.IntRange(-1, 9000))
@@ -388,13 +395,15 @@ func genWriterCase(t *rapid.T) WriterCase {
 	} else {
 		c.FailAt = rapid.SampledFrom([]int{0, 0, 1, 2, 3, 4}).Draw(t, "failAt")
 		c.Short = rapid.SampledFrom([]int{0, 1, 100, -1}).Draw(t, "short")
+		c.SinkErr = rapid.SampledFrom([]int{0, 0, 1, 2, 3, 4, 5}).Draw(t, "sinkErr")
+		c.Decoy = rapid.IntRange(0, 3).Draw(t, "decoy") == 0
 	}
 	c.Ops = genWriterOps(t, rapid.SampledFrom([]int{12, 30, 30, 80}).Draw(t, "maxOps"))
 	return c
 }
 
 func TestC05_Random(t *testing.T) {
-	rec := evid.New("C05", "c05_random", "rapid: writer histories of 1..80 ops {Malloc n (filled at once), Malloc n filled lazily (in reverse order, by a later fill op or right before Flush), WriteBinary, Flush, WrittenLen} with n from {0,1,3,100,4095,4096,4097,8192,12289,40000,-1,uniform}; io.Writer sinks failing at the k-th Write (k=0..4, short counts) and bytes-backed writers over nil / empty / partially filled / full / power-of-two targets; non-trivial = a lazily filled region was live while the unflushed size crossed 4096 (growth), or calls were made after a sink failure")
+	rec := evid.New("C05", "c05_random", "rapid: writer histories of 1..80 ops {Malloc n (filled at once), Malloc n filled lazily (in reverse order, by a later fill op or right before Flush), WriteBinary, Flush, WrittenLen} with n from {0,1,3,100,4095,4096,4097,8192,12289,40000,-1,uniform}; io.Writer sinks failing at the k-th Write (k=0..4, short counts; error values: plain, timeout/temporary net-style errors, os.ErrDeadlineExceeded, io.ErrShortWrite, io.EOF), 1 in 4 sinks also carrying the method set of zero-copy/buffered writers (WriteBinary, Flush, Malloc, ReadFrom, ...; only Write counts) and bytes-backed writers over nil / empty / partially filled / full / power-of-two targets; non-trivial = a lazily filled region was live while the unflushed size crossed 4096 (growth), or calls were made after a sink failure")
 	defer rec.Flush()
 	runRapid(t, rec, "c05_writer_history", evid.Pick(30000, 300000), genWriterCase, checkWriterCase)
 }
@@ -524,5 +533,46 @@ func TestC05_Ladder(t *testing.T) {
 		}
 	}, rec)
 	rec.Sample(WriterCase{Ops: []WOp{{"lazy", 1 << 20}, {"writebin", 1<<20 + 1<<19}, {"flush", 0}}})
+	rec.SetExhaustive()
+}
+
+// TestC05_Huge: single regions / payloads of 4..64 MiB.
+func TestC05_Huge(t *testing.T) {
+	rec := evid.New("C05", "c05_huge", "enumeration: histories {malloc p; lazy n; flush} / {malloc p; writebin n; flush} / {writebin n; malloc p; flush; malloc p; flush} for p in {0, 1000} and n in {2^k-1, 2^k, 2^k+1, 2^k+2^(k-1)+777 : k = 22..25 (thorough: ..26)}, stream-backed and bytes-backed writers; run one at a time; distinct by construction")
+	defer rec.Flush()
+	bt := evid.NewBatch()
+	shard, nshards := evid.Shard()
+	idx := 0
+	for _, n := range hugeSizes() {
+		for _, p := range []int{0, 1000} {
+			progs := [][]WOp{
+				{{"malloc", p}, {"lazy", n}, {"flush", 0}},
+				{{"malloc", p}, {"writebin", n}, {"flush", 0}},
+				{{"writebin", n}, {"malloc", p}, {"flush", 0}, {"malloc", p}, {"flush", 0}},
+			}
+			for _, ops := range progs {
+				for _, bw := range []bool{false, true} {
+					idx++
+					if idx%nshards != shard {
+						continue
+					}
+					c := WriterCase{Bytes: bw, InitLen: 3, InitCap: 64, Ops: ops}
+					var cv cov
+					v := checkWriterCase(c, &cv)
+					bt.Evals++
+					bt.Distinct++
+					bt.Nontrivial++
+					if v != nil {
+						failEnum(t, rec, "c05_writer_history", c, v)
+						rec.Merge(bt)
+						return
+					}
+				}
+			}
+		}
+		debug.FreeOSMemory()
+	}
+	rec.Merge(bt)
+	rec.Sample(WriterCase{Bytes: true, InitLen: 3, InitCap: 64, Ops: []WOp{{"malloc", 1000}, {"writebin", 1<<24 + 1}, {"flush", 0}}})
 	rec.SetExhaustive()
 }
